@@ -28,18 +28,20 @@ def generate(src):
     tt = [n for n in mod.body if isinstance(n, ast.ClassDef) and n.name == "TokenType"]
     need(len(tt) == 1, "TokenType class")
     members = [st.targets[0].id for st in tt[0].body if isinstance(st, ast.Assign)]
-    # unescape chain in tokenize: consecutive `value = value.replace(a, b)`
+    # un-escape of quoted strings in tokenize: ONE regex substitution  value = _UNESCAPE_PATTERN.sub(lambda m: _UNESCAPE_MAP[m.group(1)], value)
     tok = find_def(mod, "tokenize")
-    chain = []
-    for n in ast.walk(tok):
-        if isinstance(n, ast.Assign) and len(n.targets) == 1 and isinstance(n.targets[0], ast.Name) \
-                and n.targets[0].id == "value" and isinstance(n.value, ast.Call) \
-                and isinstance(n.value.func, ast.Attribute) and n.value.func.attr == "replace" \
-                and isinstance(n.value.func.value, ast.Name) and n.value.func.value.id == "value":
-            a, b = const_eval(n.value.args[0]), const_eval(n.value.args[1])
-            chain.append((n.lineno, a, b))
-    chain.sort()
-    need(len(chain) >= 1, "tokenize: unescape chain not found")
+    subs = [n for n in ast.walk(tok) if isinstance(n, ast.Assign) and len(n.targets) == 1 and isinstance(n.targets[0], ast.Name)
+            and n.targets[0].id == "value" and isinstance(n.value, ast.Call) and ast.unparse(n.value.func) == "_UNESCAPE_PATTERN.sub"]
+    need(len(subs) == 1, "tokenize: exactly one `value = _UNESCAPE_PATTERN.sub(...)` expected")
+    need(ast.unparse(subs[0].value) == "_UNESCAPE_PATTERN.sub(lambda m: _UNESCAPE_MAP[m.group(1)], value)",
+         "tokenize: un-escape substitution has an unexpected shape: " + ast.unparse(subs[0].value))
+    replaces = [n for n in ast.walk(tok) if isinstance(n, ast.Call) and isinstance(n.func, ast.Attribute) and n.func.attr == "replace"
+                and isinstance(n.func.value, ast.Name) and n.func.value.id == "value"]
+    need(not replaces, "tokenize: value.replace(...) next to the single-pass un-escape (sequential replaces re-read their own output)")
+    un_map = const_eval(module_assign(mod, "_UNESCAPE_MAP"))
+    need(isinstance(un_map, list) and all(isinstance(k, str) and isinstance(v, str) and len(k) == 1 and len(v) == 1 for k, v in un_map)
+         and len({k for k, _ in un_map}) == len(un_map), "_UNESCAPE_MAP is not a dict literal of distinct single characters")
+    un_pat = const_eval(module_assign(mod, "_UNESCAPE_PATTERN"))
     # lenient= default of tokenize, error codes raised
     codes = sorted({const_eval(c.args[3]) for c in ast.walk(mod)
                     if isinstance(c, ast.Call) and ast.unparse(c.func) == "LexerError" and len(c.args) == 4
@@ -53,6 +55,7 @@ def generate(src):
     out.append(f"Definition lexer_invalid_envelope_pattern : list N := {coq_str(inv_env)}.\n")
     out.append(f"Definition lexer_token_patterns : list (list N * list N) :=\n  {coq_list([f'({coq_str(r)}, {coq_str(k)})' for r, k in pats])}.\n")
     out.append(f"Definition lexer_token_types : list (list N) := {coq_strlist(members)}.\n")
-    out.append(f"Definition lexer_unescape_chain : list (list N * list N) :=\n  {coq_list([f'({coq_str(a)}, {coq_str(b)})' for _, a, b in chain])}.\n")
+    out.append(f"Definition lexer_unescape_map : list (N * N) :=\n  {coq_list([f'({ord(k)}, {ord(v)})' for k, v in un_map])}.\n")
+    out.append(f"Definition lexer_unescape_pattern : list N := {coq_str(un_pat)}.\n")
     out.append(f"Definition lexer_error_codes : list (list N) := {coq_strlist(codes)}.\n")
     return {"LexerGen.v": "".join(out)}
